@@ -211,7 +211,7 @@ PROPS = {
         technique="property-based testing (rapidcheck, fork-isolated under ASan/UBSan) with a must-reject / must-accept oracle",
         units=[U("c13_fitargs", "c13_fitargs.cpp", quick=2500, thorough=400000, names=["fit_arguments"])],
         rule="Non-trivial: exactly one invalidation (so a missing check cannot be masked by another one firing first); distinct = hash(invalidation kind, data, knots, monodim).",
-        essential={"fit_arguments": {"valid_arguments": 0.1, "inv:range_beyond_coords": 0.03, "inv:too_few_knots": 0.03, "inv:penalty_above_order": 0.03, "inv:index_beyond_range": 0.03,
+        essential={"fit_arguments": {"valid_arguments": 0.1, "inv:range_beyond_coords": 0.03, "inv:too_few_knots": 0.03, "inv:penalty_above_order": 0.03, "inv:penalty_above_order_shared_later_dim": 0.004, "inv:index_beyond_range": 0.03,
                                      "inv:knots_unsorted": 0.02, "inv:huge_order": 0.02, "inv:monodim_out_of_range": 0.03, "inv:weights_length": 0.03, "via:C": 0.03}},
         assumptions=["reference normal equations (fitgen.hpp) decide whether a valid problem is well-posed"],
     ),
